@@ -715,7 +715,7 @@ class Message:
         if not parsed.hostname:
             raise error.MalformedUrlError("CoAP URIs need a hostname")
 
-        if parsed.username or parsed.password:
+        if parsed.username or parsed.password or "@" in parsed.netloc:
             raise error.MalformedUrlError("User name and password not supported.")
 
         try:
